@@ -275,7 +275,9 @@ func discharge(scratch string, results []*FuncResult, timeoutS int, all bool, fi
 			if j.o.Kind == "canary" && to > 4 {
 				to = 4 // canaries are expected to be refutable; a timeout is as good as sat for them
 			}
-			r := runStaged(scratch, j.o.Name, q, weak, gv, to, all && j.o.Kind != "canary")
+			// thorough tier: every solver is waited for (and all must agree) on the obligations that come from contract
+			// clauses; safety and frame obligations, the bulk, keep the first-answer rule
+			r := runStaged(scratch, j.o.Name, q, weak, gv, to, all && j.o.Kind != "canary" && j.o.Label != "")
 			j.o.Result = &r
 		}(j)
 	}
